@@ -478,6 +478,8 @@ func (c *Ctx) Reach(rule, fnName, label string, sp ReachSpec) {
 		b   *ssa.BasicBlock
 		idx int
 		pos string
+		eb  *ssa.BasicBlock // seeding edge (FromEdge)
+		es  int
 	}
 	var starts []start
 	if sp.FromEdge != nil {
@@ -488,7 +490,7 @@ func (c *Ctx) Reach(rule, fnName, label string, sp ReachSpec) {
 					if len(sb.Instrs) > 0 {
 						pos = c.pos(sb.Instrs[0])
 					}
-					starts = append(starts, start{sb, 0, pos})
+					starts = append(starts, start{sb, 0, pos, b, i})
 				}
 			}
 		}
@@ -497,10 +499,10 @@ func (c *Ctx) Reach(rule, fnName, label string, sp ReachSpec) {
 			return
 		}
 	} else if sp.From == "" {
-		starts = []start{{ir.Entry(fn), 0, c.P.FuncPos(fn)}}
+		starts = []start{{ir.Entry(fn), 0, c.P.FuncPos(fn), nil, 0}}
 	} else {
 		for _, in := range matches(fn, sp.From) {
-			starts = append(starts, start{in.Block(), ir.IndexOf(in) + 1, c.pos(in)})
+			starts = append(starts, start{in.Block(), ir.IndexOf(in) + 1, c.pos(in), nil, 0})
 		}
 		if len(starts) == 0 {
 			c.R.Unknown(rule, fnName, label, c.P.FuncPos(fn), "no instruction matches start /"+sp.From+"/")
@@ -518,7 +520,12 @@ func (c *Ctx) Reach(rule, fnName, label string, sp ReachSpec) {
 		return
 	}
 	for i, st := range starts {
-		w := (&ir.Walk{Stop: stop, Cut: cut}).From(st.b, st.idx)
+		w := &ir.Walk{Stop: stop, Cut: cut}
+		if st.eb != nil {
+			w.FromEdge(st.eb, st.es)
+		} else {
+			w.From(st.b, st.idx)
+		}
 		var hit ssa.Instruction
 		for _, t := range targets {
 			if w.Reached[t] && !(stop != nil && stop(t)) {
